@@ -1,6 +1,6 @@
 (* PipelineProofs.v — theorems about kiki::generate as a whole. *)
 From Coq Require Import List Arith Lia Bool Permutation.
-From Kiki Require Import Base.Ord Base.Chars Data Oset.Model Lex.Model LR.Driver LR.Grammar LR.Inv LR.Complete LR.Sound LR.ErrPos
+From Kiki Require Import Base.Ord Base.Chars Data Oset.Model Lex.Model LR.Driver LR.Grammar LR.Inv LR.Complete LR.Sound LR.ErrPos LR.Viable
   LR.Validate LR.ValidateProofs Front.Parse Front.FrontProofs Ast.Validate Ast.WF Ast.ValidateProofs Ast.VWF Ast.Truthful
   Build.Machine Build.DetProofs Build.Table Build.TableProofs Build.FillProofs Build.TableSpec Build.GenCorrect Np Build.NoPanic
   Emit.Emit Emit.Parser Emit.NoPanic Pipeline.
@@ -50,7 +50,7 @@ Theorem generate_tables_invariants ho digest src out text :
   perm_hash_order ho -> generate_full ho digest src = Ok (out, text) ->
   exists pt (ann : list (list Grammar.item)) (ft : first_table),
     ptable_of (go_file out) (go_table out) = Some pt /\
-    Inv pt ann (fseq ft) /\ Inv2 pt ann /\ (forall P (kind : P -> nat), FirstOK kind pt (fseq ft)).
+    Inv pt ann (fseq ft) /\ Inv2 pt ann /\ (forall P (kind : P -> nat), FirstOK kind pt (fseq ft)) /\ Inv3 pt ann.
 Proof.
   intros (Hpt & Hpa) H. unfold generate_full in H.
   destruct (front_end src) as [v|e|s|s] eqn:Ev; cbn [bind] in H; try discriminate.
@@ -61,7 +61,7 @@ Proof.
   destruct (table_to_rust _ _ _ t v digest) as [tx|e|s|s]; cbn [bind] in H; try discriminate.
   injection H as <- <-. cbn [go_file go_table].
   destruct (ptable_of_total v t HV) as (pt & HP). exists pt.
-  destruct (generated_tables_invariants _ _ _ v m t pt HV Hpt Hpa Em Et HP) as (ann & ft & A & B & C).
+  destruct (generated_tables_invariants _ _ _ v m t pt HV Hpt Hpa Em Et HP) as (ann & ft & A & B & C & D).
   exists ann, ft. auto.
 Qed.
 
@@ -72,26 +72,26 @@ Section Emitted.
   Hypothesis Hgen : generate_full ho digest src = Ok (out, text).
   Hypothesis Hpt : ptable_of (go_file out) (go_table out) = Some pt.
 
-  Lemma emitted_invariants : exists ann ft, Inv pt ann (fseq ft) /\ Inv2 pt ann /\ FirstOK kind pt (fseq ft).
+  Lemma emitted_invariants : exists ann ft, Inv pt ann (fseq ft) /\ Inv2 pt ann /\ FirstOK kind pt (fseq ft) /\ Inv3 pt ann.
   Proof.
-    destruct (generate_tables_invariants ho digest src out text Hho Hgen) as (pt' & ann & ft & HP & A & B & C).
+    destruct (generate_tables_invariants ho digest src out text Hho Hgen) as (pt' & ann & ft & HP & A & B & C & D).
     rewrite Hpt in HP. injection HP as <-. exists ann, ft. auto.
   Qed.
 
   (* C01: every sentence of the grammar is accepted, with its own derivation tree *)
   Theorem emitted_parser_complete : forall t k, wf kind pt (PN (pt_start_nt pt)) t ->
     parse kind pt (size t + S k) (yield t) = OAccept t.
-  Proof. destruct emitted_invariants as (ann & ft & A & _ & C). intros t k Hw. apply (complete kind pt ann (fseq ft) C A t k Hw). Qed.
+  Proof. destruct emitted_invariants as (ann & ft & A & _ & C & _). intros t k Hw. apply (complete kind pt ann (fseq ft) C A t k Hw). Qed.
 
   (* C02: whatever is accepted is a sentence, and the tree returned is a derivation of the input *)
   Theorem emitted_parser_sound : forall fuel w t, Forall (fun p => kind p < pt_nterm pt) w ->
     parse kind pt fuel w = OAccept t -> wf kind pt (PN (pt_start_nt pt)) t /\ yield t = w.
-  Proof. destruct emitted_invariants as (ann & ft & _ & B & _). apply (sound kind pt ann B). Qed.
+  Proof. destruct emitted_invariants as (ann & ft & _ & B & _ & _). apply (sound kind pt ann B). Qed.
 
   (* no table lookup, stack pop or downcast of the emitted parser can panic *)
   Theorem emitted_parser_safe : forall fuel w site, Forall (fun p => kind p < pt_nterm pt) w ->
     parse kind pt fuel w <> OPanic site.
-  Proof. destruct emitted_invariants as (ann & ft & _ & B & _). apply (safe kind pt ann B). Qed.
+  Proof. destruct emitted_invariants as (ann & ft & _ & B & _ & _). apply (safe kind pt ann B). Qed.
 
   (* C03: a rejection names the first token that cannot continue any sentence, having read nothing beyond it *)
   Theorem emitted_parser_reject_position : forall fuel w tok,
@@ -100,7 +100,25 @@ Section Emitted.
         w = consumed ++ rest /\ tok = hd_error rest /\
         pulls kind pt fuel w = S (length consumed) /\
         (forall x r z, rest = x :: r -> ~ sentence kind pt (consumed ++ x :: z)).
-  Proof. destruct emitted_invariants as (ann & ft & A & _ & C). apply (reject_position kind pt ann (fseq ft) C A). Qed.
+  Proof. destruct emitted_invariants as (ann & ft & A & _ & C & _). apply (reject_position kind pt ann (fseq ft) C A). Qed.
+
+  (* C03, full statement, for grammars in which every right-hand side derives some token sequence:
+     the reported index is neither too late nor too early *)
+  Theorem emitted_parser_reject_exact :
+    (forall r ru, nth_error (pt_rules pt) r = Some ru -> exists ts, wfs kind pt (pr_rhs ru) ts) ->
+    (exists t, wf kind pt (PN (pt_start_nt pt)) t) ->
+    forall fuel w tok,
+      Forall (fun p => kind p < pt_nterm pt) w ->
+      parse kind pt fuel w = OReject tok ->
+      exists consumed rest,
+        w = consumed ++ rest /\ tok = hd_error rest /\
+        pulls kind pt fuel w = S (length consumed) /\
+        (forall x r z, rest = x :: r -> ~ sentence kind pt (consumed ++ x :: z)) /\
+        (exists z, sentence kind pt (consumed ++ z)).
+  Proof.
+    intros Hprod Hstart. destruct emitted_invariants as (ann & ft & A & B & C & D).
+    apply (reject_exact kind pt ann (fseq ft) C A B D Hprod Hstart).
+  Qed.
 
   (* C04/C17: an accepted grammar is unambiguous *)
   Theorem accepted_grammar_unambiguous : forall t1 t2,
